@@ -136,11 +136,15 @@ def spell(toks, style, rnd=None):
     where it is insignificant (next to a binary operator in binary position, a
     separator or inside a parenthesis) - never between two operands, where it
     would be the intersection operator."""
+    ws = {'tab': '\t', 'nl': '\n'}.get(style, ' ')
+    if style in ('tab', 'nl'):
+        style = 'spaced'
+        rnd = None
     out = []
     prev = None
     prev_binary = False
     for t in toks:
-        s = ' ' if t == '_' else t
+        s = ws if t == '_' else t
         if style in ('lower', 'mixed') and (t in FN or t in REFS):
             s = s.lower() if style == 'lower' else ''.join(
                 c.lower() if i % 2 else c.upper() for i, c in enumerate(s))
@@ -149,11 +153,11 @@ def spell(toks, style, rnd=None):
             fuse = (prev in OPERANDS and (t in OPERANDS or t in FN)) or \
                    (prev in REFS and t in ('(', '{'))
             if fuse:
-                out.append(' ')   # "1 2", "1 SUM(", "A1 (" must not fuse
+                out.append(ws)   # "1 2", "1 SUM(", "A1 (" must not fuse
             elif style == 'spaced' and t != '_' and prev != '_':
                 if binary or prev_binary or prev in (',', '(', ';', '{') or \
                         prev in FN or t in (')', ',', '}', ';'):
-                    out.append(' ' if rnd is None else rnd.choice([' ', '  ']))
+                    out.append(ws if rnd is None else rnd.choice([' ', '  ']))
         out.append(s)
         prev, prev_binary = t, binary
     return '=' + ''.join(out)
